@@ -217,6 +217,29 @@ func (o SolveOpts) maxRecheck() int {
 	return 40
 }
 
+// rawQuery runs a complete script and returns the first verdict line.
+func rawQuery(sv solverSpec, script string, timeoutMs int) (status, model, raw string, secs float64) {
+	ctx, cancel := context.WithTimeout(context.Background(), time.Duration(timeoutMs)*time.Millisecond+10*time.Second)
+	defer cancel()
+	argv := sv.argv(timeoutMs)
+	cmd := exec.CommandContext(ctx, argv[0], argv[1:]...)
+	cmd.Stdin = strings.NewReader(script)
+	var buf bytes.Buffer
+	cmd.Stdout = &buf
+	cmd.Stderr = &buf
+	t0 := time.Now()
+	cmd.Run()
+	secs = time.Since(t0).Seconds()
+	raw = buf.String()
+	status = strings.TrimSpace(strings.SplitN(raw, "\n", 2)[0])
+	switch status {
+	case "sat", "unsat", "unknown", "timeout":
+	default:
+		status = "error"
+	}
+	return
+}
+
 type SolveOpts struct {
 	MaxRecheck int
 	TimeoutMs  int
